@@ -160,9 +160,14 @@ Exchange(i, j) ==
   /\ exchanged' = exchanged \cup {{i, j}}
   /\ UNCHANGED <<net, stale>>
 
-Next == \/ \E n \in Node : Tick(n) \/ Restart(n) \/ \E s \in 0..MaxState : StateChange(n, s)
+Next == \/ \E n \in Node : Tick(n)
+        \/ \E n \in Node : Restart(n)
+        \/ \E n \in Node, s \in 0..MaxState : StateChange(n, s)
         \/ \E i, j \in Node : SendSync(i, j)
-        \/ \E m \in net : HandleSync(m) \/ HandleAck(m) \/ HandleAck2(m) \/ Drop(m)
+        \/ \E m \in net : HandleSync(m)
+        \/ \E m \in net : HandleAck(m)
+        \/ \E m \in net : HandleAck2(m)
+        \/ \E m \in net : Drop(m)
 Spec == Init /\ [][Next]_vars
 
 ------------------------------------------------------------------------------
